@@ -287,15 +287,79 @@ Proof. split; [exists 0; apply find_and_T2|]. destruct pf; split; reflexivity. Q
 Lemma plain_ident : plain_ty (s "IDENT").  Proof. repeat split. Qed.
 Lemma plain_char : plain_ty (s "CHAR").  Proof. repeat split. Qed.
 
+(* ---- stage 3 (Dimension): a one-token value  NUMBER / DIMENSION / PERCENTAGE  behind the colon *)
+Definition is_dim (t : term) : Prop :=
+  match t with
+  | TmNum _ | TmDim _ _ | TmPct _ => True
+  | TmIdent v => mem_s (normalize v) color_keys = false      (* an identifier that is not a colour keyword: a Value object *)
+  | _ => False
+  end.
+Definition wf_val (o : option (nat * term)) : Prop := match o with None => True | Some (_, t) => is_dim t end.
+Definition v_toks lay (e : mexpr) : list tok :=
+  match me_val e with
+  | None => []
+  | Some (g, t) => ch ":" :: gopt lay g ++ r_term lay t ++ gopt lay (me_g2 e)
+  end.
+Definition dim_obj (ty : string) (v : str) : item := IObj (s "DIMENSION") 6 true [IStr (s ty) v] [].
+Definition dim_item (t : term) : list item :=
+  match t with
+  | TmNum n => [dim_obj "NUMBER" (num_lex n)]
+  | TmDim n u => [dim_obj "DIMENSION" (normalize (num_lex n ++ u))]
+  | TmPct n => [dim_obj "PERCENTAGE" (num_lex n ++ s "%")]
+  | TmIdent v => [IObj (s "Value") 4 true [IStr (s "IDENT") v] []]
+  | _ => []
+  end.
+Definition leaf (it : item) (rest : list tok) : result := mkRes true [it] [] false None SOff false rest stash0.
+(* what the proofs need from the DimensionValue constructor (proved for the real environment in dim_ok_subE) *)
+Definition dim_ok (sub : nat -> bool -> tok -> list tok -> out) (postof : nat -> option postcode) : Prop :=
+  postof 6 = Some PostDim /\
+  (forall v rest, sub 6 false (T "NUMBER" v) rest = Ret (leaf (IStr (s "NUMBER") v) rest)) /\
+  (forall v rest, sub 6 false (T "DIMENSION" v) rest = Ret (leaf (IStr (s "DIMENSION") (normalize v)) rest)) /\
+  (forall v rest, sub 6 false (T "PERCENTAGE" v) rest = Ret (leaf (IStr (s "PERCENTAGE") v) rest)) /\
+  postof 4 = Some PostFirst /\
+  (forall v rest, sub 4 false (T "IDENT" v) rest = Ret (leaf (IStr (s "IDENT") v) rest)).
+
+Lemma find_colon pf ctx fu :
+  find (S (S fu)) (fE pf 2 0 :: ctx) (ch ":") = FFound p_colon (fColon 1 0 :: fE pf 3 0 :: ctx).
+Proof. destruct pf; vm_compute; reflexivity. Qed.
+Lemma find_dimtok pf ctx ty v fu : ty = "NUMBER"%string \/ ty = "DIMENSION"%string \/ ty = "PERCENTAGE"%string ->
+  find (S (S fu)) (fColon 1 0 :: fE pf 3 0 :: ctx) (T ty v) = FFound p_dim (fVals :: fColon 0 1 :: fE pf 3 0 :: ctx).
+Proof. intros [-> | [-> | ->]]; destruct pf; lazy -[normalize]; reflexivity. Qed.
+Lemma find_close_v pf ctx fu :
+  find (S (S (S fu))) (fVals :: fColon 0 1 :: fE pf 3 0 :: ctx) (ch ")") = FFound (p_close pf) (fE pf 0 1 :: ctx).
+Proof. destruct pf; vm_compute; reflexivity. Qed.
+Lemma find_val3_generic pc a b c d0 rest tk fu :
+  tok_matches a (Some tk) = false -> tok_matches b (Some tk) = false -> tok_matches c (Some tk) = true ->
+  find (S (S fu)) (FSeq [PProd pc; PCho [PProd a; PProd b; PProd c; PProd d0] None] 0 (Some 1) 1 0 true :: rest) tk =
+  FFound c (FCho [PProd a; PProd b; PProd c; PProd d0] (topt (PCho [PProd a; PProd b; PProd c; PProd d0] None)) true ::
+            FSeq [PProd pc; PCho [PProd a; PProd b; PProd c; PProd d0] None] 0 (Some 1) 0 1 true :: rest).
+Proof.
+  intros Ha Hb Hc. cbn -[tmatches topt]. cbn [tmatches]. rewrite Ha, Hb, Hc. cbn -[tmatches topt]. cbn [tmatches].
+  rewrite Ha, Hb, Hc. reflexivity.
+Qed.
+Lemma tm_color_ident v : tok_matches p_color (Some (T "IDENT" v)) = mem_s (normalize v) color_keys.
+Proof. reflexivity. Qed.
+Lemma find_identval pf ctx v fu : mem_s (normalize v) color_keys = false ->
+  find (S (S fu)) (fColon 1 0 :: fE pf 3 0 :: ctx) (T "IDENT" v) = FFound p_value (fVals :: fColon 0 1 :: fE pf 3 0 :: ctx).
+Proof. intros H. apply find_val3_generic; [rewrite tm_color_ident; exact H|reflexivity|reflexivity]. Qed.
+Lemma plain_dim ty : ty = "NUMBER"%string \/ ty = "DIMENSION"%string \/ ty = "PERCENTAGE"%string -> plain_ty (s ty).
+Proof. intros [-> | [-> | ->]]; repeat split. Qed.
+
 Section MQ.
   Variable sub : nat -> bool -> tok -> list tok -> out.
   Variable postof : nat -> option postcode.
   Variable lay : layout.
+  Hypothesis Hd : dim_ok sub postof.
   Notation LOOP := (loop opts0 sub postof).
 
   Definition it_close : item := IStr (s "CHAR") (s ")").
+  Definition x_val (e : mexpr) : list item :=
+    match me_val e with
+    | None => []
+    | Some (g, t) => tok_items [ch ":"] ++ tok_items (gopt lay g) ++ dim_item t ++ tok_items (gopt lay (me_g2 e))
+    end.
   Definition x_inner' (e : mexpr) : list item :=
-    tok_items (gopt lay (me_g0 e)) ++ tok_items [T "IDENT" (me_feat e)] ++ tok_items (gopt lay (me_g1 e)).
+    tok_items (gopt lay (me_g0 e)) ++ tok_items [T "IDENT" (me_feat e)] ++ tok_items (gopt lay (me_g1 e)) ++ x_val e.
   Definition andtok (gc : nat) : tok := T "IDENT" (cased lay gc (s "and")).
   Fixpoint x_ands (l : list (nat * nat * nat * mexpr)) : list item :=
     match l with
@@ -310,33 +374,127 @@ Section MQ.
     | (ga, gc, gb, e) :: r => sto_ands ns r (if ns then store_add (s "not simple") (cased lay gc (s "and")) sto else sto)
     end.
 
-  Lemma run_expr_inner pf ctx e k acc sto sd nm strict rest :
-    LOOP (length (gopt lay (me_g0 e) ++ T "IDENT" (me_feat e) :: gopt lay (me_g1 e) ++ ch ")" :: rest) + k)
+  Lemma process_sub_g p tk st lab g r pc w its mt :
+    p_stopkeep p = false -> p_toseq p = ASub (Some lab) g -> l_own st = SOff -> l_anc st = false ->
+    sub g false tk (l_rest st) = Ret r -> postof g = Some pc -> post pc r = PRet w its mt ->
+    p_stop p = false -> p_nextsor p = false -> p_store p = None ->
+    process sub postof p tk st =
+    LCont (set_defaultS (add_item (set_stash (set_stream st SOff (false && r_anc r) (r_rest r)) (r_stash r))
+                                  (IObj lab g w its mt)) true).
+  Proof.
+    intros Hk Ha Hown Hanc Hsub Hpo Hpost Hstop Hns Hsto. unfold process. rewrite Hk, Ha, Hown, Hanc. cbn [orb].
+    rewrite Hsub, Hpo, Hpost. rewrite Hstop, Hns. unfold do_store. rewrite Hsto. reflexivity.
+  Qed.
+
+  (* the Dimension production: the sub-parser consumes exactly the token *)
+  Lemma run_dim ty v v' stk stk' k acc sto sd nm strict rest :
+    plain_ty (s ty) -> find (find_fuel stk) stk (T ty v) = FFound p_dim stk' ->
+    sub 6 false (T ty v) rest = Ret (leaf (IStr (s ty) v') rest) -> is_comment_item (IStr (s ty) v') = false ->
+    LOOP (length (T ty v :: rest) + k) (mst stk (rev acc) sto sd nm strict (T ty v :: rest)) =
+    LOOP (length rest + k) (mst stk' (rev (acc ++ [dim_obj ty v'])) sto true nm true rest).
+  Proof.
+    intros Hp Hf Hsub Hc. destruct Hd as [Hpo _]. cbn [length Nat.add]. rewrite loop_unfold.
+    change (pull (mst stk (rev acc) sto sd nm strict (T ty v :: rest)))
+      with (Some (T ty v, mst stk (rev acc) sto sd nm strict rest)).
+    cbv iota beta. rewrite (body_found sub postof (T ty v) (mst stk (rev acc) sto sd nm strict rest) p_dim stk' Hp Hf).
+    erewrite (process_sub_g p_dim (T ty v) _ (s "DIMENSION") 6 _ PostDim true [IStr (s ty) v'] []);
+      [|reflexivity|reflexivity|reflexivity|reflexivity|exact Hsub|exact Hpo| |reflexivity..].
+    2:{ unfold post, leaf. cbn [r_wf r_items value_item List.find]. rewrite Hc. reflexivity. }
+    cbv iota beta. rewrite rev_unit. reflexivity.
+  Qed.
+
+  (* the Value production on an identifier *)
+  Lemma run_ident4 v stk stk' k acc sto sd nm strict rest :
+    find (find_fuel stk) stk (T "IDENT" v) = FFound p_value stk' ->
+    LOOP (length (T "IDENT" v :: rest) + k) (mst stk (rev acc) sto sd nm strict (T "IDENT" v :: rest)) =
+    LOOP (length rest + k) (mst stk' (rev (acc ++ [IObj (s "Value") 4 true [IStr (s "IDENT") v] []])) sto true nm true rest).
+  Proof.
+    intros Hf. destruct Hd as (_ & _ & _ & _ & Hpo4 & Hid). cbn [length Nat.add]. rewrite loop_unfold.
+    change (pull (mst stk (rev acc) sto sd nm strict (T "IDENT" v :: rest)))
+      with (Some (T "IDENT" v, mst stk (rev acc) sto sd nm strict rest)).
+    cbv iota beta. rewrite (body_found sub postof (T "IDENT" v) (mst stk (rev acc) sto sd nm strict rest) p_value stk' plain_ident Hf).
+    erewrite (process_sub_g p_value (T "IDENT" v) _ (s "Value") 4 _ PostFirst true [IStr (s "IDENT") v] []);
+      [|reflexivity|reflexivity|reflexivity|reflexivity|apply Hid|exact Hpo4|reflexivity|reflexivity..].
+    cbv iota beta. rewrite rev_unit. reflexivity.
+  Qed.
+
+  (* the value part of an expression: nothing, or  ':' gap dimension gap *)
+  Lemma run_value pf ctx e k acc sto sd nm rest : wf_val (me_val e) ->
+    LOOP (length (v_toks lay e ++ ch ")" :: rest) + k)
+         (mst (fE pf 2 0 :: ctx) (rev acc) sto sd nm true (v_toks lay e ++ ch ")" :: rest)) =
+    LOOP (length rest + k) (mst (fE pf 0 1 :: ctx) (rev ((acc ++ x_val e) ++ [it_close])) sto true (pf || nm) true rest).
+  Proof.
+    unfold v_toks, x_val. destruct (me_val e) as [[g t]|]; intros Hw.
+    - cbn [wf_val] in Hw. cbn [app]. repeat (rewrite <- app_assoc; cbn [app]).
+      rewrite (run_tok sub postof (ch ":") p_colon (fColon 1 0 :: fE pf 3 0 :: ctx));
+        [|exact plain_char|apply find_colon|reflexivity..].
+      rewrite (run_gap' sub postof _ (gapl_opt lay g)).
+      cbn [p_store p_colon P p_stopnm p_mayend orb negb].
+      destruct Hd as (_ & Hn & Hdi & Hpc & _ & _).
+      assert (Hdimcase : forall ty v v', r_term lay t = [T ty v] -> dim_item t = [dim_obj ty v'] ->
+                (ty = "NUMBER"%string \/ ty = "DIMENSION"%string \/ ty = "PERCENTAGE"%string) ->
+                (forall rest, sub 6 false (T ty v) rest = Ret (leaf (IStr (s ty) v') rest)) ->
+                loop opts0 sub postof (length (r_term lay t ++ gopt lay (me_g2 e) ++ ch ")" :: rest) + k)
+                  (mst (fColon 1 0 :: fE pf 3 0 :: ctx) (rev ((acc ++ tok_items [ch ":"]) ++ tok_items (gopt lay g))) sto true nm true
+                       (r_term lay t ++ gopt lay (me_g2 e) ++ ch ")" :: rest)) =
+                loop opts0 sub postof (length rest + k)
+                  (mst (fE pf 0 1 :: ctx)
+                       (rev (acc ++ tok_items [ch ":"] ++ tok_items (gopt lay g) ++ dim_item t ++ tok_items (gopt lay (me_g2 e)) ++ [it_close]))
+                       sto true (pf || nm) true rest)).
+      { intros ty v v' -> -> Hty Hs. cbn [app].
+        rewrite (run_dim ty v v' _ (fVals :: fColon 0 1 :: fE pf 3 0 :: ctx));
+          [|apply plain_dim, Hty|apply find_dimtok, Hty|apply Hs|destruct Hty as [-> | [-> | ->]]; reflexivity].
+        rewrite (run_gap' sub postof _ (gapl_opt lay (me_g2 e))).
+        rewrite (run_tok sub postof (ch ")") (p_close pf) (fE pf 0 1 :: ctx));
+          [|exact plain_char|apply find_close_v|reflexivity..].
+        cbn [p_store p_close P p_stopnm p_mayend orb negb]. rewrite <- !app_assoc. reflexivity. }
+      destruct t; cbn [is_dim] in Hw; try contradiction.
+      + cbn [r_term dim_item app].
+        rewrite (run_ident4 v _ (fVals :: fColon 0 1 :: fE pf 3 0 :: ctx)); [|apply find_identval, Hw].
+        rewrite (run_gap' sub postof _ (gapl_opt lay (me_g2 e))).
+        rewrite (run_tok sub postof (ch ")") (p_close pf) (fE pf 0 1 :: ctx));
+          [|exact plain_char|apply find_close_v|reflexivity..].
+        cbn [p_store p_close P p_stopnm p_mayend orb negb]. rewrite <- !app_assoc. reflexivity.
+      + apply (Hdimcase "NUMBER"%string (num_lex n) (num_lex n)); auto.
+      + apply (Hdimcase "DIMENSION"%string (num_lex n ++ u) (normalize (num_lex n ++ u))); auto.
+      + apply (Hdimcase "PERCENTAGE"%string (num_lex n ++ s "%") (num_lex n ++ s "%")); auto.
+    - cbn [app].
+      rewrite (run_tok sub postof (ch ")") (p_close pf) (fE pf 0 1 :: ctx));
+        [|exact plain_char|apply find_close|reflexivity..].
+      cbn [p_store p_close P p_stopnm p_mayend orb negb]. rewrite app_nil_r. reflexivity.
+  Qed.
+
+  Lemma run_expr_inner pf ctx e k acc sto sd nm strict rest : wf_val (me_val e) ->
+    LOOP (length (gopt lay (me_g0 e) ++ T "IDENT" (me_feat e) :: gopt lay (me_g1 e) ++ v_toks lay e ++ ch ")" :: rest) + k)
          (mst (fE pf 1 0 :: ctx) (rev acc) sto sd nm strict
-              (gopt lay (me_g0 e) ++ T "IDENT" (me_feat e) :: gopt lay (me_g1 e) ++ ch ")" :: rest)) =
+              (gopt lay (me_g0 e) ++ T "IDENT" (me_feat e) :: gopt lay (me_g1 e) ++ v_toks lay e ++ ch ")" :: rest)) =
     LOOP (length rest + k) (mst (fE pf 0 1 :: ctx) (rev ((acc ++ x_inner' e) ++ [it_close])) sto true (pf || nm) true rest).
   Proof.
+    intros Hw.
     rewrite (run_gap' sub postof _ (gapl_opt lay (me_g0 e))).
     rewrite (run_tok sub postof (T "IDENT" (me_feat e)) p_feat (fE pf 2 0 :: ctx));
       [|exact plain_ident|apply find_feat|reflexivity..].
     rewrite (run_gap' sub postof _ (gapl_opt lay (me_g1 e))).
-    rewrite (run_tok sub postof (ch ")") (p_close pf) (fE pf 0 1 :: ctx));
-      [|exact plain_char|apply find_close|reflexivity..].
-    cbn [p_store p_feat p_close P p_stopnm p_mayend orb negb].
+    cbn [p_store p_feat P p_stopnm p_mayend orb negb].
+    rewrite (run_value pf ctx e k _ _ _ _ rest Hw).
     unfold x_inner'. rewrite <- !app_assoc. reflexivity.
   Qed.
 
-  Lemma mexprs_shape ga gc gb e r rest : me_val e = None ->
+  Lemma mexpr_shape e rest :
+    r_mexpr lay e ++ rest =
+    ch "(" :: gopt lay (me_g0 e) ++ T "IDENT" (me_feat e) :: gopt lay (me_g1 e) ++ v_toks lay e ++ ch ")" :: rest.
+  Proof. unfold r_mexpr, v_toks. cbn [app]. repeat (rewrite <- app_assoc; cbn [app]). reflexivity. Qed.
+
+  Lemma mexprs_shape ga gc gb e r rest :
     r_mexprs lay false ((ga, gc, gb, e) :: r) ++ rest =
     greq lay ga ++ andtok gc :: greq lay gb ++ ch "(" :: gopt lay (me_g0 e) ++ T "IDENT" (me_feat e) :: gopt lay (me_g1 e) ++
-    ch ")" :: r_mexprs lay false r ++ rest.
+    v_toks lay e ++ ch ")" :: r_mexprs lay false r ++ rest.
   Proof.
-    intros Hv. cbn [r_mexprs]. unfold r_mexpr. rewrite Hv. unfold andtok.
-    repeat (rewrite <- app_assoc; cbn [app]). reflexivity.
+    cbn [r_mexprs]. unfold andtok. repeat (rewrite <- app_assoc; cbn [app]). rewrite mexpr_shape. reflexivity.
   Qed.
 
   Lemma run_tail pf ns base : final base true true = FinOk true ->
-    forall l, Forall (fun x => me_val (snd x) = None) l ->
+    forall l, Forall (fun x => wf_val (me_val (snd x))) l ->
     forall stk acc0 it sto sd nm k, ready pf ns base stk -> eqs (item_ty it) (s "S") = false ->
     LOOP (length (r_mexprs lay false l) + S k) (mst stk (rev (acc0 ++ [it])) sto sd nm true (r_mexprs lay false l)) =
     Ret (mkRes true ((acc0 ++ [it]) ++ x_ands l) (sto_ands ns l sto) false None SOff false [] stash0).
@@ -344,14 +502,14 @@ Section MQ.
     intros Hb. induction 1 as [|[[[ga gc] gb] e] r Hv Hr IH]; intros stk acc0 it sto sd nm k Hrd Hit.
     - cbn [r_mexprs length Nat.add x_ands sto_ands]. rewrite app_nil_r. apply run_end; [apply Hrd|exact Hit].
     - destruct Hrd as [[r0 Hand] _]. cbn [snd] in Hv.
-      rewrite <- (app_nil_r (r_mexprs lay false ((ga, gc, gb, e) :: r))). rewrite (mexprs_shape _ _ _ _ _ _ Hv). rewrite app_nil_r.
+      rewrite <- (app_nil_r (r_mexprs lay false ((ga, gc, gb, e) :: r))). rewrite mexprs_shape. rewrite app_nil_r.
       rewrite (run_gap' sub postof _ (gapl_req lay ga)).
       rewrite (run_tok sub postof (andtok gc) (p_and ns) (fAnd pf ns 1 r0 :: base));
         [|exact plain_ident|exact (Hand (Nat.odd (lk lay gc)))|destruct ns; reflexivity..].
       rewrite (run_gap' sub postof _ (gapl_req lay gb)).
       rewrite (run_tok sub postof (ch "(") p_open (fE pf 1 0 :: fAnd pf ns 0 (S r0) :: base));
         [|exact plain_char|apply find_open_A|reflexivity..].
-      rewrite run_expr_inner.
+      rewrite (run_expr_inner _ _ _ _ _ _ _ _ _ _ Hv).
       rewrite (IH _ _ it_close _ _ _ k (ready_R pf ns base (S r0) Hb) eq_refl).
       cbn [x_ands sto_ands]. f_equal. f_equal.
       + rewrite <- !app_assoc. reflexivity.
@@ -372,6 +530,20 @@ Definition wf_mq (q : mquery) : Prop :=
   | Some t => not_neg t /\ (known_type t \/ (mq_neg q = 0 /\ unknown_type t))
   | None => mq_exprs q <> []
   end /\ Forall (fun x => me_val (snd x) = None) (mq_exprs q).
+
+Definition wf_mqv (q : mquery) : Prop :=
+  match mq_type q with
+  | Some t => not_neg t /\ (known_type t \/ (mq_neg q = 0 /\ unknown_type t))
+  | None => mq_exprs q <> []
+  end /\ Forall (fun x => wf_val (me_val (snd x))) (mq_exprs q).
+Lemma wf_mq_v q : wf_mq q -> wf_mqv q.
+Proof. intros [H1 H2]. split; [exact H1|]. eapply Forall_impl; [|exact H2]. intros x Hx. cbn beta. rewrite Hx. exact I. Qed.
+
+Definition subE (d : nat) : nat -> bool -> tok -> list tok -> out := fun g a t l => pparse_sub d env_real g a (Some t) l.
+Definition poE := postof_env env_real.
+
+Lemma dim_ok_subE D : dim_ok (subE (S D)) poE.
+Proof. split; [reflexivity|]. repeat split; first [reflexivity | intros v rest; lazy -[normalize]; reflexivity]. Qed.
 
 Definition negtok lay (q : mquery) : tok :=
   T "IDENT" (cased lay (mq_gcase q) (match mq_neg q with 1 => s "only" | _ => s "not" end)).
@@ -409,12 +581,14 @@ Proof.
   reflexivity.
 Qed.
 
-Theorem media_query_accepts_items d lay q : wf_mq q ->
-  pparse d env_real true opts0 tree_MediaQuery (r_mquery lay q) stash0 =
+Theorem media_query_accepts_items_v d lay q : wf_mqv q ->
+  pparse (S d) env_real true opts0 tree_MediaQuery (r_mquery lay q) stash0 =
   Ret (mkRes true (x_mquery lay q) (sto_mquery lay q) false None SOff false [] stash0).
 Proof.
   intros [Ht Hv]. rewrite pparse_mq_unfold.
-  set (sub := fun g' a' t' l' => pparse_sub d env_real g' a' (Some t') l'). set (po := postof_env env_real).
+  change (fun g' a' t' l' => pparse_sub (S d) env_real g' a' (Some t') l') with (subE (S d)).
+  change (postof_env env_real) with poE.
+  set (sub := subE (S d)). set (po := poE). pose proof (dim_ok_subE d : dim_ok sub po) as Hd.
   unfold r_mquery, x_mquery, sto_mquery. destruct (mq_type q) as [t|] eqn:Et.
   - destruct Ht as [Hn Hk]. destruct (mq_neg q) as [|n] eqn:En.
     + cbn [app]. destruct Hk as [Hk|[_ Hu]].
@@ -422,13 +596,13 @@ Proof.
           [|exact plain_ident|apply find_type_known0; assumption|reflexivity..].
         cbn [p_store p_type_known P p_stopnm p_mayend orb negb val T].
         change (rev ([] ++ tok_items [T "IDENT" t])) with (rev ([] ++ [IStr (s "IDENT") t])).
-        rewrite (run_tail sub po lay false true _ (proj2 (proj2 (ready_T1 false))) _ Hv _ [] (IStr (s "IDENT") t) _ _ _ 2 (ready_T1 false) eq_refl).
+        rewrite (run_tail sub po lay Hd false true _ (proj2 (proj2 (ready_T1 false))) _ Hv _ [] (IStr (s "IDENT") t) _ _ _ 2 (ready_T1 false) eq_refl).
         reflexivity.
       * rewrite (run_tok sub po (T "IDENT" t) p_type_any [fAlt false 2 2 0; fRoot false true]);
           [|exact plain_ident|apply find_type_any0; assumption|reflexivity..].
         cbn [p_store p_type_any P p_stopnm p_mayend orb negb val T].
         change (rev ([] ++ tok_items [T "IDENT" t])) with (rev ([] ++ [IStr (s "IDENT") t])).
-        rewrite (run_tail sub po lay false true _ (proj2 (proj2 (ready_T3 false))) _ Hv _ [] (IStr (s "IDENT") t) _ _ _ 2 (ready_T3 false) eq_refl).
+        rewrite (run_tail sub po lay Hd false true _ (proj2 (proj2 (ready_T3 false))) _ Hv _ [] (IStr (s "IDENT") t) _ _ _ 2 (ready_T3 false) eq_refl).
         reflexivity.
     + destruct Hk as [Hk|[E0 _]]; [|congruence].
       assert (Hnt : (if match n with 0 => true | _ => false end then T "IDENT" (cased lay (mq_gcase q) (s "only"))
@@ -452,21 +626,25 @@ Proof.
         [|exact plain_ident|apply find_type_known1; assumption|reflexivity..].
       cbn [p_store p_type_known p_onlynot P p_stopnm p_mayend orb negb].
       change (tok_items [T "IDENT" t]) with [IStr (s "IDENT") t].
-      rewrite (run_tail sub po lay false true _ (proj2 (proj2 (ready_T1 false))) _ Hv _ _ (IStr (s "IDENT") t) _ _ _ 2 (ready_T1 false) eq_refl).
+      rewrite (run_tail sub po lay Hd false true _ (proj2 (proj2 (ready_T1 false))) _ Hv _ _ (IStr (s "IDENT") t) _ _ _ 2 (ready_T1 false) eq_refl).
       f_equal. f_equal. rewrite <- !app_assoc. reflexivity.
   - destruct (mq_exprs q) as [|[[[ga gc] gb] e] r] eqn:El; [congruence|].
     inversion Hv as [|? ? Hve Hvr]; subst. cbn [snd] in Hve.
-    cbn [r_mexprs app]. unfold r_mexpr. rewrite Hve. cbn [app].
-    repeat (rewrite <- app_assoc; cbn [app]).
+    cbn [r_mexprs app]. rewrite (mexpr_shape lay).
     rewrite (run_tok sub po (ch "(") p_open [fE false 1 0; fAlt false 1 1 0; fRoot false true]);
       [|exact plain_char|apply find_open0|reflexivity..].
-    rewrite run_expr_inner.
+    rewrite (run_expr_inner sub po lay Hd _ _ _ _ _ _ _ _ _ _ Hve).
     cbn [p_store p_open P p_stopnm p_mayend orb negb].
-    rewrite (run_tail sub po lay false false _ (proj2 (proj2 (ready_T2 false))) _ Hvr _ _ it_close _ _ _ 2 (ready_T2 false) eq_refl).
+    rewrite (run_tail sub po lay Hd false false _ (proj2 (proj2 (ready_T2 false))) _ Hvr _ _ it_close _ _ _ 2 (ready_T2 false) eq_refl).
     f_equal. f_equal.
     + rewrite <- !app_assoc. reflexivity.
     + clear. generalize (@nil (str * list str)). induction r as [|[[[a b] c] e'] r IH]; intros sto; [reflexivity|apply IH].
 Qed.
+
+Theorem media_query_accepts_items d lay q : wf_mq q ->
+  pparse (S d) env_real true opts0 tree_MediaQuery (r_mquery lay q) stash0 =
+  Ret (mkRes true (x_mquery lay q) (sto_mquery lay q) false None SOff false [] stash0).
+Proof. intros H. apply media_query_accepts_items_v, wf_mq_v, H. Qed.
 
 (* ------------------------------------------------------------------ MediaQuery.mediaType (mediaquery.py:182-193) *)
 Lemma sg_add_same k v sto : store_get k (store_add k v sto) <> None.
@@ -528,10 +706,11 @@ Proof. change (t :: l) with ([t] ++ l). apply tok_items_app. Qed.
 Lemma x_ands_tok lay l : Forall (fun x => me_val (snd x) = None) l -> x_ands lay l = tok_items (r_mexprs lay false l).
 Proof.
   induction 1 as [|[[[ga gc] gb] e] r Hv Hr IH]; [reflexivity|]. cbn [snd] in Hv.
-  rewrite <- (app_nil_r (r_mexprs lay false ((ga, gc, gb, e) :: r))), (mexprs_shape lay _ _ _ _ _ [] Hv), app_nil_r.
+  rewrite <- (app_nil_r (r_mexprs lay false ((ga, gc, gb, e) :: r))), (mexprs_shape lay _ _ _ _ _ []), app_nil_r.
+  unfold v_toks. rewrite Hv. cbn [app].
   rewrite tok_items_app, (tok_items_cons (andtok lay gc)), tok_items_app, (tok_items_cons (ch "(")), tok_items_app,
     (tok_items_cons (T "IDENT" (me_feat e))), tok_items_app, (tok_items_cons (ch ")")).
-  rewrite <- IH. cbn [x_ands]. unfold x_inner'. rewrite <- !app_assoc. reflexivity.
+  rewrite <- IH. cbn [x_ands]. unfold x_inner', x_val. rewrite Hv, app_nil_r. rewrite <- !app_assoc. reflexivity.
 Qed.
 
 (* every token of the rendering becomes one item, whitespace is dropped, comments become CSSComment items *)
@@ -548,7 +727,7 @@ Proof.
     match goal with |- ?L = _ => set (lhs := L) end.
     rewrite (tok_items_cons (ch "(")), tok_items_app, (tok_items_cons (T "IDENT" (me_feat e))), tok_items_app,
       (tok_items_cons (ch ")")).
-    rewrite <- (x_ands_tok lay _ Hvr). subst lhs. unfold x_inner'. rewrite <- !app_assoc. reflexivity.
+    rewrite <- (x_ands_tok lay _ Hvr). subst lhs. unfold x_inner', x_val. rewrite Hve, app_nil_r. rewrite <- !app_assoc. reflexivity.
 Qed.
 
 Corollary media_query_accepts_tokens q lay : wf_mq q ->
@@ -557,4 +736,709 @@ Corollary media_query_accepts_tokens q lay : wf_mq q ->
 Proof.
   intros H. destruct (media_query_accepts q lay H) as (r & H1 & H2 & H3 & H4 & _). exists r.
   rewrite <- (x_mquery_tok lay q H). auto.
+Qed.
+
+(* ================================================================== stage 4: media lists *)
+(* ------------------------------------------------------------------ fuel-free runs *)
+Section Runs.
+  Variable sub : nat -> bool -> tok -> list tok -> out.
+  Variable postof : nat -> option postcode.
+  Notation LOOP := (loop opts0 sub postof).
+
+  Lemma loop_mono n : forall st x, LOOP n st = x -> x <> OutOfFuel -> forall m, n <= m -> LOOP m st = x.
+  Proof.
+    induction n as [|n IH]; intros st x H Hx m Hm; [cbn in H; congruence|].
+    destruct m as [|m]; [lia|]. rewrite loop_unfold in H |- *.
+    destruct (pull st) as [[t st1]|]; [|exact H].
+    destruct (body opts0 sub postof t st1); [apply IH; [exact H|exact Hx|lia]|exact H|exact H].
+  Qed.
+
+  Definition runs (st : lstate) (r : result) : Prop := exists n, LOOP n st = Ret r.
+
+  Lemma runs_step a b st st' r : (forall k, LOOP (a + k) st = LOOP (b + k) st') -> runs st' r -> runs st r.
+  Proof. intros H [n Hn]. exists (a + n). rewrite H. apply (loop_mono n); [exact Hn|discriminate|lia]. Qed.
+
+  Lemma runs_fuel st r m : runs st r -> LOOP m st <> OutOfFuel -> LOOP m st = Ret r.
+  Proof.
+    intros [n Hn] Hm. destruct (le_lt_dec n m) as [Hle|Hlt].
+    - apply (loop_mono n); [exact Hn|discriminate|exact Hle].
+    - rewrite <- Hn. symmetry. apply (loop_mono m); [reflexivity|exact Hm|lia].
+  Qed.
+
+  Definition last_noS (acc : list item) : Prop := exists a it, acc = a ++ [it] /\ eqs (item_ty it) (s "S") = false.
+  Lemma last_noS_gap g : gapl g -> forall acc, last_noS acc -> last_noS (acc ++ tok_items g).
+  Proof.
+    induction 1 as [|t g Ht Hg IH]; intros acc Ha; [cbn; now rewrite app_nil_r|].
+    rewrite tok_items_cons, app_assoc. apply IH.
+    unfold tok_items, isS, isC. cbn [flat_map]. destruct Ht as [Ht|Ht]; rewrite Ht.
+    - cbn. now rewrite app_nil_r.
+    - cbn. exists acc, (IStr (s "CSSComment") (val t)). split; reflexivity.
+  Qed.
+
+  Lemma runs_end stk acc sto sd nm strict :
+    last_noS acc -> final stk strict true = FinOk true ->
+    runs (mst stk (rev acc) sto sd nm strict []) (mkRes true acc sto false None SOff false [] stash0).
+  Proof. intros (a & it & -> & Hit) Hf. exists 1. now apply run_end. Qed.
+
+  Lemma body_nomatch tk st stk' :
+    plain_ty (ty tk) -> find (find_fuel (l_stack st)) (l_stack st) tk = FNoMatch stk' -> l_stopnm st = true ->
+    body opts0 sub postof tk st =
+    LBreak (set_stopall (set_stash (set_stack (set_started st) stk' false) (push_saved tk (l_stash st)))).
+  Proof.
+    intros (H1 & H2 & H3 & H4) Hf Hnm. unfold body. cbn [opts0 o_checkS andb]. rewrite H1, H2, H3, H4.
+    rewrite andb_false_r. cbn [andb]. change (l_stack (set_started st)) with (l_stack st). rewrite Hf.
+    change (l_stopnm (set_stack (set_started st) stk' false)) with (l_stopnm st). rewrite Hnm. reflexivity.
+  Qed.
+
+  Lemma finish_stopall st : l_stopall st = true ->
+    finish opts0 st = Ret (mkRes (l_wf st) (rev (rstripS (l_seq st))) (l_store st) false (l_keep st) (l_own st) (l_anc st)
+                                 (l_rest st) (l_stash st)).
+  Proof. intros H. unfold finish. rewrite H. reflexivity. Qed.
+
+  (* stopIfNoMoreMatch: the token that matches nothing goes to savedTokens, the parse returns what it has *)
+  Lemma runs_stop stk stk' acc sto sd strict tl :
+    last_noS acc -> find (find_fuel stk) stk (ch ",") = FNoMatch stk' ->
+    runs (mst stk (rev acc) sto sd true strict (ch "," :: tl))
+         (mkRes true acc sto false None SOff false tl (mkStash [ch ","] [])).
+  Proof.
+    intros (a & it & -> & Hit) Hf. exists 1. rewrite loop_unfold.
+    change (pull (mst stk (rev (a ++ [it])) sto sd true strict (ch "," :: tl)))
+      with (Some (ch ",", mst stk (rev (a ++ [it])) sto sd true strict tl)).
+    cbv iota beta. rewrite (body_nomatch (ch ",") (mst stk (rev (a ++ [it])) sto sd true strict tl) stk' plain_char Hf eq_refl).
+    rewrite finish_stopall by reflexivity.
+    change (Ret (mkRes true (rev (rstripS (rev (a ++ [it])))) sto false None SOff false tl (mkStash [ch ","] [])) =
+            Ret (mkRes true (a ++ [it]) sto false None SOff false tl (mkStash [ch ","] []))).
+    rewrite rev_unit. cbn [rstripS]. rewrite Hit. rewrite <- rev_unit, rev_involutive. reflexivity.
+  Qed.
+End Runs.
+
+(* ------------------------------------------------------------------ a query followed by a gap and then the end or ',' *)
+Definition bse pf (a : nat) : list frame := [fAlt pf a 0 1; fRoot pf true].
+Definition cready (stk : list frame) : Prop := exists s2, find (find_fuel stk) stk (ch ",") = FNoMatch s2.
+
+Lemma final_bse pf a : a < 3 -> final (bse pf a) true true = FinOk true.
+Proof. intros Ha. destruct pf, a as [|[|[|a]]]; try lia; reflexivity. Qed.
+Lemma cready_R pf ns a rnd : a < 3 -> cready (fE pf 0 1 :: fAnd pf ns 0 rnd :: bse pf a).
+Proof. intros Ha. destruct pf, ns, a as [|[|[|a]]]; try lia; eexists; vm_compute; reflexivity. Qed.
+Lemma cready_T1 pf : cready [fAlt pf 0 2 0; fRoot pf true].
+Proof. destruct pf; eexists; vm_compute; reflexivity. Qed.
+Lemma cready_T3 pf : cready [fAlt pf 2 2 0; fRoot pf true].
+Proof. destruct pf; eexists; vm_compute; reflexivity. Qed.
+Lemma cready_T2 pf : cready [fE pf 0 1; fAlt pf 1 1 0; fRoot pf true].
+Proof. destruct pf; eexists; vm_compute; reflexivity. Qed.
+
+Lemma and_store ns v sto :
+  match p_store (p_and ns) with Some key => store_add key v sto | None => sto end =
+  if ns then store_add (s "not simple") v sto else sto.
+Proof. destruct ns; reflexivity. Qed.
+
+Section MQ2.
+  Variable sub : nat -> bool -> tok -> list tok -> out.
+  Variable postof : nat -> option postcode.
+  Variable lay : layout.
+  Hypothesis Hd : dim_ok sub postof.
+  Notation RUNS := (runs sub postof).
+
+  Lemma runs_tail pf ns a : a < 3 ->
+    forall l, Forall (fun x => wf_val (me_val (snd x))) l ->
+    forall stk acc sto sd nm rest r, ready pf ns (bse pf a) stk -> cready stk ->
+    (forall stk' sd' nm', ready pf ns (bse pf a) stk' -> cready stk' -> (nm = true \/ (pf = true /\ l <> []) -> nm' = true) ->
+       RUNS (mst stk' (rev (acc ++ x_ands lay l)) (sto_ands lay ns l sto) sd' nm' true rest) r) ->
+    RUNS (mst stk (rev acc) sto sd nm true (r_mexprs lay false l ++ rest)) r.
+  Proof.
+    intros Ha. induction 1 as [|[[[ga gc] gb] e] l Hv Hl IH]; intros stk acc sto sd nm rest r Hrd Hc K.
+    - cbn [r_mexprs app]. specialize (K stk sd nm Hrd Hc). cbn [x_ands sto_ands] in K. rewrite app_nil_r in K.
+      apply K. intros [H|[_ H]]; [exact H|congruence].
+    - destruct Hrd as [[r0 Hand] _]. cbn [snd] in Hv. rewrite (mexprs_shape lay).
+      eapply runs_step; [intros k; apply (run_gap' sub postof _ (gapl_req lay ga))|].
+      eapply runs_step; [intros k; apply (run_tok sub postof (andtok lay gc) (p_and ns) (fAnd pf ns 1 r0 :: bse pf a));
+        [exact plain_ident|exact (Hand (Nat.odd (lk lay gc)))|destruct ns; reflexivity..]|].
+      eapply runs_step; [intros k; apply (run_gap' sub postof _ (gapl_req lay gb))|].
+      eapply runs_step; [intros k; apply (run_tok sub postof (ch "(") p_open (fE pf 1 0 :: fAnd pf ns 0 (S r0) :: bse pf a));
+        [exact plain_char|apply find_open_A|reflexivity..]|].
+      eapply runs_step; [intros k; apply (run_expr_inner sub postof lay Hd); exact Hv|].
+      rewrite and_store. cbn [p_store p_open P].
+      apply IH; [apply ready_R, final_bse, Ha|apply cready_R, Ha|].
+      intros stk' sd' nm' Hr' Hc' Hn'.
+      specialize (K stk' sd' nm' Hr' Hc'). cbn [x_ands sto_ands] in K.
+      match goal with |- RUNS (mst _ (rev ?A) _ _ _ _ _) _ =>
+        replace A with (acc ++ tok_items (greq lay ga) ++ tok_items [andtok lay gc] ++ tok_items (greq lay gb) ++
+                        tok_items [ch "("] ++ x_inner' lay e ++ [it_close] ++ x_ands lay l)
+          by (rewrite <- !app_assoc; reflexivity) end.
+      apply K. intros Hor. apply Hn'. left.
+      cbn [p_stopnm p_and p_open p_close P orb]. destruct Hor as [->|[-> _]]; [destruct pf|]; reflexivity.
+  Qed.
+
+  Definition comma_tail (tl : option (list tok)) : list tok := match tl with Some l => ch "," :: l | None => [] end.
+  Definition stop_rest (tl : option (list tok)) : list tok := match tl with Some l => l | None => [] end.
+  Definition stop_stash (tl : option (list tok)) : stash := match tl with Some _ => mkStash [ch ","] [] | None => stash0 end.
+
+  Lemma runs_finish pf ns base stk acc sto sd nm g tl r :
+    ready pf ns base stk -> cready stk -> last_noS acc -> gapl g -> (tl <> None -> nm = true) ->
+    r = mkRes true (acc ++ tok_items g) sto false None SOff false (stop_rest tl) (stop_stash tl) ->
+    RUNS (mst stk (rev acc) sto sd nm true (g ++ comma_tail tl)) r.
+  Proof.
+    intros Hrd [s2 Hc] Hl Hg Hnm ->.
+    eapply runs_step; [intros k; apply (run_gap' sub postof _ Hg)|].
+    destruct tl as [l|]; cbn [comma_tail stop_rest stop_stash].
+    - rewrite (Hnm ltac:(discriminate)). eapply runs_stop; [apply last_noS_gap; assumption|exact Hc].
+    - apply runs_end; [apply last_noS_gap; assumption|apply Hrd].
+  Qed.
+End MQ2.
+
+(* a query that is followed by ',' must have set stopIfNoMoreMatch: a known media type or an expression (an unknown
+   type directly before a comma is a NoMatch error of the implementation: `foo, print` is rejected) *)
+Definition stopok (q : mquery) : Prop :=
+  match mq_type q with Some t => known_type t \/ mq_exprs q <> [] | None => True end.
+
+Definition mq_res lay (q : mquery) (g : list tok) (tl : option (list tok)) : result :=
+  mkRes true (x_mquery lay q ++ tok_items g) (sto_mquery lay q) false None SOff false (stop_rest tl) (stop_stash tl).
+
+Lemma last_noS_1 a t v : eqs t (s "S") = false -> last_noS (a ++ [IStr t v]).
+Proof. intros H. exists a, (IStr t v). split; [reflexivity|exact H]. Qed.
+
+Lemma last_noS_ands lay l : forall acc, last_noS acc -> last_noS (acc ++ x_ands lay l).
+Proof.
+  induction l as [|[[[ga gc] gb] e] r IH]; intros acc H; cbn [x_ands]; [now rewrite app_nil_r|].
+  replace (acc ++ tok_items (greq lay ga) ++ tok_items [andtok lay gc] ++ tok_items (greq lay gb) ++ tok_items [ch "("] ++
+           x_inner' lay e ++ [it_close] ++ x_ands lay r)
+    with (((acc ++ tok_items (greq lay ga) ++ tok_items [andtok lay gc] ++ tok_items (greq lay gb) ++ tok_items [ch "("] ++
+           x_inner' lay e) ++ [it_close]) ++ x_ands lay r) by (rewrite <- !app_assoc; reflexivity).
+  apply IH. apply last_noS_1. reflexivity.
+Qed.
+
+Section MQ3.
+  Variable sub : nat -> bool -> tok -> list tok -> out.
+  Variable postof : nat -> option postcode.
+  Variable lay : layout.
+  Hypothesis Hd : dim_ok sub postof.
+  Notation RUNS := (runs sub postof).
+
+  (* the MediaQuery(_partof=True) parse on the rendering of q, a gap, and then the end of the stream or a comma *)
+  Lemma mq_runs q g tl : wf_mqv q -> gapl g -> (tl <> None -> stopok q) ->
+    RUNS (mst (c0 true) (rev []) [] false false false (r_mquery lay q ++ g ++ comma_tail tl)) (mq_res lay q g tl).
+  Proof.
+    intros [Ht Hv] Hg Hs. unfold r_mquery, mq_res, x_mquery, sto_mquery, stopok in *.
+    destruct (mq_type q) as [t|] eqn:Et.
+    - destruct Ht as [Hn Hk]. destruct (mq_neg q) as [|n] eqn:En.
+      + cbn [app]. destruct Hk as [Hk|[_ Hu]].
+        * eapply runs_step; [intros k; apply (run_tok sub postof (T "IDENT" t) p_type_known [fAlt true 0 2 0; fRoot true true]);
+            [exact plain_ident|apply find_type_known0; assumption|reflexivity..]|].
+          cbn [p_store p_type_known P p_stopnm p_mayend orb negb val T].
+          apply (runs_tail sub postof lay Hd true true 0 ltac:(lia) _ Hv); [apply ready_T1|apply cready_T1|].
+          intros stk' sd' nm' Hr' Hc' Hn'.
+          eapply runs_finish; [exact Hr'|exact Hc'| |exact Hg|intros _; apply Hn'; left; reflexivity|].
+          { apply last_noS_ands, last_noS_1. reflexivity. }
+          f_equal.
+        * eapply runs_step; [intros k; apply (run_tok sub postof (T "IDENT" t) p_type_any [fAlt true 2 2 0; fRoot true true]);
+            [exact plain_ident|apply find_type_any0; assumption|reflexivity..]|].
+          cbn [p_store p_type_any P p_stopnm p_mayend orb negb val T].
+          apply (runs_tail sub postof lay Hd true true 2 ltac:(lia) _ Hv); [apply ready_T3|apply cready_T3|].
+          intros stk' sd' nm' Hr' Hc' Hn'.
+          eapply runs_finish; [exact Hr'|exact Hc'| |exact Hg| |].
+          { apply last_noS_ands, last_noS_1. reflexivity. }
+          { intros Htl. apply Hn'. right. split; [reflexivity|]. destruct (Hs Htl) as [Hk|Hne]; [|exact Hne].
+            destruct Hu as [Hu _]. unfold known_type in Hk. congruence. }
+          f_equal.
+      + destruct Hk as [Hk|[E0 _]]; [|congruence].
+        assert (Hnt : (if match n with 0 => true | _ => false end then T "IDENT" (cased lay (mq_gcase q) (s "only"))
+                       else T "IDENT" (cased lay (mq_gcase q) (s "not"))) = negtok lay q)
+          by (unfold negtok; rewrite En; destruct n; reflexivity).
+        assert (Htoks : match S n with
+                        | 0 => []
+                        | 1 => T "IDENT" (cased lay (mq_gcase q) (s "only")) :: greq lay (mq_g0 q)
+                        | S (S _) => T "IDENT" (cased lay (mq_gcase q) (s "not")) :: greq lay (mq_g0 q)
+                        end = negtok lay q :: greq lay (mq_g0 q))
+          by (rewrite <- Hnt; destruct n; reflexivity).
+        rewrite Htoks. clear Htoks Hnt. cbn [app]. rewrite <- !app_assoc. cbn [app].
+        assert (Hfn : find (find_fuel (c0 true)) (c0 true) (negtok lay q) = FFound p_onlynot [fAlt true 0 1 0; fRoot true true]).
+        { unfold negtok. rewrite En. destruct n.
+          - exact (find_neg true (Nat.odd (lk lay (mq_gcase q))) "only" (or_introl eq_refl)).
+          - exact (find_neg true (Nat.odd (lk lay (mq_gcase q))) "not" (or_intror eq_refl)). }
+        eapply runs_step; [intros k; apply (run_tok sub postof (negtok lay q) p_onlynot [fAlt true 0 1 0; fRoot true true]);
+          [exact plain_ident|exact Hfn|reflexivity..]|].
+        eapply runs_step; [intros k; apply (run_gap' sub postof _ (gapl_req lay (mq_g0 q)))|].
+        eapply runs_step; [intros k; apply (run_tok sub postof (T "IDENT" t) p_type_known [fAlt true 0 2 0; fRoot true true]);
+          [exact plain_ident|apply find_type_known1; assumption|reflexivity..]|].
+        cbn [p_store p_type_known p_onlynot P p_stopnm p_mayend orb negb].
+        apply (runs_tail sub postof lay Hd true true 0 ltac:(lia) _ Hv); [apply ready_T1|apply cready_T1|].
+        intros stk' sd' nm' Hr' Hc' Hn'.
+        eapply runs_finish; [exact Hr'|exact Hc'| |exact Hg|intros _; apply Hn'; left; reflexivity|].
+        { apply last_noS_ands, last_noS_1. reflexivity. }
+        f_equal. rewrite <- !app_assoc. reflexivity.
+    - destruct (mq_exprs q) as [|[[[ga gc] gb] e] r] eqn:El; [congruence|].
+      inversion Hv as [|? ? Hve Hvr]; subst. cbn [snd] in Hve.
+      cbn [r_mexprs app]. rewrite <- !app_assoc. rewrite (mexpr_shape lay).
+      eapply runs_step; [intros k; apply (run_tok sub postof (ch "(") p_open [fE true 1 0; fAlt true 1 1 0; fRoot true true]);
+        [exact plain_char|apply find_open0|reflexivity..]|].
+      eapply runs_step; [intros k; apply (run_expr_inner sub postof lay Hd); exact Hve|].
+      cbn [p_store p_open P p_stopnm p_mayend orb negb].
+      apply (runs_tail sub postof lay Hd true false 1 ltac:(lia) _ Hvr); [apply ready_T2|apply cready_T2|].
+      intros stk' sd' nm' Hr' Hc' Hn'.
+      eapply runs_finish; [exact Hr'|exact Hc'| |exact Hg|intros _; apply Hn'; left; reflexivity|].
+      { apply last_noS_ands, last_noS_1. reflexivity. }
+      f_equal.
+      + rewrite <- !app_assoc. reflexivity.
+      + clear. generalize (@nil (str * list str)). induction r as [|[[[a b] c] e'] r IH]; intros sto; [reflexivity|apply IH].
+  Qed.
+End MQ3.
+
+(* ------------------------------------------------------------------ the MediaList grammar (medialist.py) *)
+Definition p_mlcomment := mkProd (s "comment") (MTy (s "COMMENT")) true AOpaque None false false false false false false.
+Definition p_mqstart := P "MediaQueryStart" (MOr (MTy (s "IDENT")) (MVal (s "("))) false (ASub (Some (s "MediaQuery")) 2) None false false.
+Definition p_comma := P "comma" (MVal (s ",")) false AFalse None false false.
+Definition cs_ps : list ptree := [PProd p_comma; PProd p_mqstart].
+Definition ml_ps : list ptree := [PSeq [PProd p_mlcomment] 0 None; PProd p_mqstart; PSeq cs_ps 0 None].
+Lemma tree_MediaList_eq : tree_MediaList = PSeq ml_ps 1 (Some 1).  Proof. reflexivity. Qed.
+
+Definition fML i rnd := FSeq ml_ps 1 (Some 1) i rnd true.
+Definition fCS i rnd := FSeq cs_ps 0 None i rnd true.
+Definition ml0 : list frame := [FSeq ml_ps 1 (Some 1) 0 0 false].
+Definition mlC (r : nat) : list frame := [fCS 1 r; fML 0 1].
+
+Lemma find_seq_skip1 pc p2 x tk fu :
+  tok_matches pc (Some tk) = false -> tok_matches p2 (Some tk) = true ->
+  find (S fu) [FSeq [PSeq [PProd pc] 0 None; PProd p2; x] 1 (Some 1) 0 0 false] tk =
+  FFound p2 [FSeq [PSeq [PProd pc] 0 None; PProd p2; x] 1 (Some 1) 2 0 true].
+Proof. intros H1 H2. cbn -[tmatches]. cbn [tmatches topt Nat.eqb]. rewrite H1, H2. destruct (p_opt pc); reflexivity. Qed.
+Lemma find_cs1 pc p2 base rnd tk fu :
+  tok_matches p2 (Some tk) = true ->
+  find (S fu) (FSeq [PProd pc; PProd p2] 0 None 1 rnd true :: base) tk =
+  FFound p2 (FSeq [PProd pc; PProd p2] 0 None 0 (S rnd) true :: base).
+Proof. intros H2. cbn -[tmatches]. cbn [tmatches]. rewrite H2. reflexivity. Qed.
+
+Definition mlready (stk : list frame) : Prop := stk = ml0 \/ exists r, stk = mlC r.
+
+Lemma ml_trans stk : mlready stk -> exists stk1 r',
+  (forall tk, plain_ty (ty tk) -> tok_matches p_mqstart (Some tk) = true ->
+     find (find_fuel stk) stk tk = FFound p_mqstart stk1) /\
+  final stk1 true true = FinOk true /\
+  find (find_fuel stk1) stk1 (ch ",") = FFound p_comma (mlC r').
+Proof.
+  intros [->|[r ->]].
+  - exists [fML 2 0], 0. split; [|split; reflexivity].
+    intros tk (Hc & _) Hm. apply find_seq_skip1; [exact Hc|exact Hm].
+  - exists [fCS 0 (S r); fML 0 1], (S r). split; [|split; [destruct r; reflexivity|vm_compute; reflexivity]].
+    intros tk _ Hm. apply find_cs1. exact Hm.
+Qed.
+
+Lemma mq_first lay q : wf_mqv q -> exists tk qs,
+  r_mquery lay q = tk :: qs /\ plain_ty (ty tk) /\ tok_matches p_mqstart (Some tk) = true.
+Proof.
+  intros [Ht Hv]. unfold r_mquery. destruct (mq_type q) as [t|].
+  - destruct (mq_neg q) as [|[|n]]; cbn [app]; eexists _, _; (split; [reflexivity|split; [exact plain_ident|reflexivity]]).
+  - destruct (mq_exprs q) as [|[[[ga gc] gb] e] r]; [congruence|]. cbn [r_mexprs app]. unfold r_mexpr. cbn [app].
+    eexists _, _. split; [reflexivity|split; [exact plain_char|reflexivity]].
+Qed.
+
+
+(* the MediaQuery(_partof=True) constructor that the MediaQueryStart callback runs on pushtoken(tk, tokens) *)
+Lemma sub_mq d tk rest r :
+  runs (subE d) poE (mst (c0 true) (rev []) [] false false false (tk :: rest)) r ->
+  subE (S d) 2 false tk rest = Ret r.
+Proof.
+  intros Hr. unfold subE at 1. cbn [pparse_sub].
+  change (nth_error env_real 2) with (Some (mkGr (s "MediaQuery") tree_MediaQuery_partof opts0 PostMQ)). cbv iota beta.
+  cbn [g_opts g_tree]. fold (subE d). fold poE.
+  pose proof (parse_tree_sub_ok (subE d) poE opts0 tree_MediaQuery_partof false tk rest (pparse_sub_ok d env_real)) as [Hne _].
+  revert Hne. unfold parse_tree. rewrite tree_MediaQuery_partof_eq. unfold init_state. rewrite enter_mq.
+  unfold loop_fuel. cbn [saved stash0 length Nat.add].
+  assert (E : forall n, loop opts0 (subE d) poE (S n)
+               (mkLs [fRoot true false] [] [] true false false true false false false None (SPend tk) false rest stash0) =
+             loop opts0 (subE d) poE (S n) (mst (c0 true) (rev []) [] false false false (tk :: rest)))
+    by (intros n; rewrite !loop_unfold; reflexivity).
+  rewrite E. intros Hne. apply runs_fuel; assumption.
+Qed.
+
+Section ML.
+  Variable d : nat.
+  Notation LOOP := (loop opts0 (subE (S d)) poE).
+  Notation RUNS := (runs (subE (S d)) poE).
+
+  Lemma runs_step1 st st' r : (forall n, LOOP (S n) st = LOOP n st') -> RUNS st' r -> RUNS st r.
+  Proof. intros H [n Hn]. exists (S n). now rewrite H. Qed.
+
+  Lemma process_sub p tk st lab g r pc w its mt :
+    p_stopkeep p = false -> p_toseq p = ASub (Some lab) g -> l_own st = SOff -> l_anc st = false ->
+    subE (S d) g false tk (l_rest st) = Ret r -> poE g = Some pc -> post pc r = PRet w its mt ->
+    p_stop p = false -> p_nextsor p = false -> p_store p = None ->
+    process (subE (S d)) poE p tk st =
+    LCont (set_defaultS (add_item (set_stash (set_stream st SOff (false && r_anc r) (r_rest r)) (r_stash r))
+                                  (IObj lab g w its mt)) true).
+  Proof.
+    intros Hk Ha Hown Hanc Hsub Hpo Hpost Hstop Hns Hsto. unfold process. rewrite Hk, Ha, Hown, Hanc. cbn [orb].
+    rewrite Hsub, Hpo, Hpost. rewrite Hstop, Hns. unfold do_store. rewrite Hsto. reflexivity.
+  Qed.
+
+  (* one MediaQueryStart iteration: the sub-parser consumes the query and hands back what is left *)
+  Lemma ml_query_step stk stk1 acc sd strict tk rest its sto rest' sh n :
+    plain_ty (ty tk) -> find (find_fuel stk) stk tk = FFound p_mqstart stk1 ->
+    subE (S d) 2 false tk rest = Ret (mkRes true its sto false None SOff false rest' sh) ->
+    LOOP (S n) (mst stk (rev acc) [] sd false strict (tk :: rest)) =
+    LOOP n (mkLs stk1 (rev (acc ++ [IObj (s "MediaQuery") 2 true its (mq_mediatype sto)])) [] true true false true false false
+                 true None SOff false rest' sh).
+  Proof.
+    intros Hp Hf Hsub. rewrite loop_unfold.
+    change (pull (mst stk (rev acc) [] sd false strict (tk :: rest))) with (Some (tk, mst stk (rev acc) [] sd false strict rest)).
+    cbv iota beta. rewrite (body_found _ _ tk (mst stk (rev acc) [] sd false strict rest) p_mqstart stk1 Hp Hf).
+    erewrite (process_sub p_mqstart tk _ (s "MediaQuery") 2 _ PostMQ true its (mq_mediatype sto));
+      [|reflexivity|reflexivity|reflexivity|reflexivity|exact Hsub|reflexivity..].
+    cbv iota beta. rewrite rev_unit. reflexivity.
+  Qed.
+
+  (* the ',' comes back through savedTokens; the comma production has toSeq=False *)
+  Lemma ml_comma_step stk1 stk2 seq sd strict rest n :
+    find (find_fuel stk1) stk1 (ch ",") = FFound p_comma stk2 ->
+    LOOP (S n) (mkLs stk1 seq [] true sd false true false false strict None SOff false rest (mkStash [ch ","] [])) =
+    LOOP n (mst stk2 seq [] true false true rest).
+  Proof.
+    intros Hf. rewrite loop_unfold.
+    change (pull (mkLs stk1 seq [] true sd false true false false strict None SOff false rest (mkStash [ch ","] [])))
+      with (Some (ch ",", mst stk1 seq [] sd false strict rest)).
+    cbv iota beta. rewrite (body_found _ _ (ch ",") (mst stk1 seq [] sd false strict rest) p_comma stk2 plain_char Hf).
+    reflexivity.
+  Qed.
+End ML.
+
+(* ------------------------------------------------------------------ a rendered media list *)
+Fixpoint ml_toks lay (q : mquery) (more : mlist) (gend : list tok) : list tok :=
+  r_mquery lay q ++ match more with
+                    | [] => gend
+                    | (ga, gb, q') :: r => gopt lay ga ++ ch "," :: gopt lay gb ++ ml_toks lay q' r gend
+                    end.
+Definition mq_obj lay (q : mquery) (g : list tok) : item :=
+  IObj (s "MediaQuery") 2 true (x_mquery lay q ++ tok_items g) (simple_type q).
+(* the comments before a ',' (and at the end) belong to the query in front, those behind a ',' to the list *)
+Fixpoint x_ml lay (q : mquery) (more : mlist) (gend : list tok) : list item :=
+  match more with
+  | [] => [mq_obj lay q gend]
+  | (ga, gb, q') :: r => mq_obj lay q (gopt lay ga) :: tok_items (gopt lay gb) ++ x_ml lay q' r gend
+  end.
+Fixpoint wf_ml' (q : mquery) (more : mlist) : Prop :=
+  wf_mqv q /\ match more with [] => True | (_, _, q') :: r => stopok q /\ wf_ml' q' r end.
+
+Lemma r_mlist_toks lay ga gb q more : r_mlist lay true ((ga, gb, q) :: more) = ml_toks lay q more [].
+Proof.
+  cbn [r_mlist app]. revert q. induction more as [|[[ga' gb'] q'] r IH]; intros q; cbn [r_mlist ml_toks]; [reflexivity|].
+  rewrite IH. rewrite <- app_assoc. reflexivity.
+Qed.
+
+Section ML2.
+  Variable d : nat.
+  Variable lay : layout.
+  Variable gend : list tok.
+  Hypothesis Hgend : gapl gend.
+  Notation RUNS := (runs (subE (S (S d))) poE).
+
+  Lemma ml_runs : forall more q stk acc sd strict, mlready stk -> wf_ml' q more ->
+    RUNS (mst stk (rev acc) [] sd false strict (ml_toks lay q more gend))
+         (mkRes true (acc ++ x_ml lay q more gend) [] false None SOff false [] stash0).
+  Proof.
+    induction more as [|[[ga gb] q'] r IH]; intros q stk acc sd strict Hst Hwf.
+    - destruct Hwf as [Hq _]. cbn [ml_toks x_ml].
+      destruct (ml_trans stk Hst) as (stk1 & r' & Hfind & Hfin & _).
+      destruct (mq_first lay q Hq) as (tk & qs & Eq & Hp & Hm).
+      pose proof (mq_runs (subE (S d)) poE lay (dim_ok_subE d) q gend None Hq Hgend ltac:(congruence)) as Hr.
+      cbn [comma_tail] in Hr. rewrite app_nil_r, Eq in Hr. cbn [app] in Hr. apply sub_mq in Hr.
+      rewrite Eq. cbn [app].
+      eapply runs_step1; [intros n; apply (ml_query_step (S d) stk stk1 acc sd strict tk _ _ _ _ _ n Hp (Hfind tk Hp Hm) Hr)|].
+      cbn [stop_rest stop_stash]. rewrite mq_mediatype_sto.
+      apply (runs_end (subE (S (S d))) poE stk1 _ [] true false true); [|exact Hfin].
+      eexists _, _. split; reflexivity.
+    - destruct Hwf as [Hq [Hso Hwf']]. cbn [ml_toks x_ml].
+      destruct (ml_trans stk Hst) as (stk1 & r' & Hfind & _ & Hcomma).
+      destruct (mq_first lay q Hq) as (tk & qs & Eq & Hp & Hm).
+      pose proof (mq_runs (subE (S d)) poE lay (dim_ok_subE d) q (gopt lay ga) (Some (gopt lay gb ++ ml_toks lay q' r gend)) Hq (gapl_opt lay ga)
+                    (fun _ => Hso)) as Hr.
+      cbn [comma_tail] in Hr. rewrite Eq in Hr. cbn [app] in Hr. apply sub_mq in Hr.
+      rewrite Eq. cbn [app].
+      eapply runs_step1; [intros n; apply (ml_query_step (S d) stk stk1 acc sd strict tk _ _ _ _ _ n Hp (Hfind tk Hp Hm) Hr)|].
+      cbn [stop_rest stop_stash]. rewrite mq_mediatype_sto.
+      eapply runs_step1; [intros n; apply (ml_comma_step (S d) stk1 (mlC r') _ true true _ n Hcomma)|].
+      eapply runs_step; [intros k; apply (run_gap' (subE (S (S d))) poE _ (gapl_opt lay gb))|].
+      specialize (IH q' (mlC r') ((acc ++ [mq_obj lay q (gopt lay ga)]) ++ tok_items (gopt lay gb)) true true
+                     (or_intror (ex_intro _ r' eq_refl)) Hwf').
+      rewrite <- !app_assoc in IH. cbn [app] in IH. rewrite <- !app_assoc. exact IH.
+  Qed.
+End ML2.
+
+(* ------------------------------------------------------------------ MediaList._setMediaText: the duplicate / `all` filter *)
+Definition wf_ml (ml : mlist) : Prop := match ml with [] => False | (_, _, q) :: more => wf_ml' q more end.
+Definition x_mlist lay (ml : mlist) : list item := match ml with [] => [] | (_, _, q) :: more => x_ml lay q more [] end.
+
+Fixpoint ml_pairs lay (q : mquery) (more : mlist) (gend : list tok) : list (mquery * list tok) :=
+  match more with [] => [(q, gend)] | (ga, gb, q') :: r => (q, gopt lay ga) :: ml_pairs lay q' r gend end.
+Definition pobj lay (p : mquery * list tok) : item := mq_obj lay (fst p) (snd p).
+Definition mkey (q : mquery) : str := normalize (simple_type q).
+Definition isall (p : mquery * list tok) : bool := eqs (mkey (fst p)) (s "all").
+Fixpoint ded (seen : list str) (l : list (mquery * list tok)) : list (mquery * list tok) :=
+  match l with
+  | [] => []
+  | p :: r => match mkey (fst p) with
+              | [] => p :: ded seen r
+              | _ => if mem_s (mkey (fst p)) seen then ded seen r else p :: ded (seen ++ [mkey (fst p)]) r
+              end
+  end.
+Definition my_eff (l : list (mquery * list tok)) : list (mquery * list tok) :=
+  match List.find isall l with Some p => [p] | None => ded [] l end.
+
+Lemma ml_filter_obj lay q g r seen final comments :
+  ml_filter (mq_obj lay q g :: r) seen final comments =
+  match mkey q with
+  | [] => ml_filter r seen (mq_obj lay q g :: final) comments
+  | _ => if eqs (mkey q) (s "all") then rev (mq_obj lay q g :: comments)
+         else if mem_s (mkey q) seen then ml_filter r seen final comments
+         else ml_filter r (seen ++ [mkey q]) (mq_obj lay q g :: final) comments
+  end.
+Proof. reflexivity. Qed.
+
+Lemma filter_gapitems g : filter is_mq_obj (tok_items g) = [].
+Proof.
+  induction g as [|t g IH]; [reflexivity|]. rewrite tok_items_cons, filter_app, IH, app_nil_r.
+  unfold tok_items. cbn [flat_map]. destruct (isS t); [reflexivity|]. destruct (isC t); reflexivity.
+Qed.
+
+Lemma ml_filter_gap g : gapl g -> forall r seen final comments,
+  ml_filter (tok_items g ++ r) seen final comments = ml_filter r seen (rev (tok_items g) ++ final) (rev (tok_items g) ++ comments).
+Proof.
+  induction 1 as [|t g Ht Hg IH]; intros r seen final comments; [reflexivity|].
+  rewrite tok_items_cons. unfold tok_items at 1 3 5. unfold isS, isC. cbn [flat_map].
+  destruct Ht as [Ht|Ht]; rewrite Ht.
+  - cbn [app rev]. apply IH.
+  - change (eqs (s "COMMENT") (s "S")) with false. change (eqs (s "COMMENT") (s "COMMENT")) with true. cbv iota. cbn [app].
+    change (ml_filter (IStr (s "CSSComment") (val t) :: tok_items g ++ r) seen final comments)
+      with (ml_filter (tok_items g ++ r) seen (IStr (s "CSSComment") (val t) :: final) (IStr (s "CSSComment") (val t) :: comments)).
+    rewrite IH. cbn [rev app]. rewrite <- !app_assoc. reflexivity.
+Qed.
+
+Lemma ml_filter_noall lay gend : forall more q seen final comments,
+  List.find isall (ml_pairs lay q more gend) = None ->
+  filter is_mq_obj (ml_filter (x_ml lay q more gend) seen final comments) =
+  filter is_mq_obj (rev final) ++ map (pobj lay) (ded seen (ml_pairs lay q more gend)).
+Proof.
+  induction more as [|[[ga gb] q'] r IH]; intros q seen final comments Hf; cbn [x_ml ml_pairs ded fst snd] in *.
+  - unfold isall in Hf. cbn [List.find fst] in Hf. rewrite ml_filter_obj.
+    destruct (mkey q) as [|c k] eqn:Ek.
+    + cbn [ml_filter rev]. rewrite filter_app. reflexivity.
+    + destruct (eqs (c :: k) (s "all")); [discriminate|].
+      destruct (mem_s (c :: k) seen); cbn [ml_filter map]; [now rewrite app_nil_r|].
+      cbn [rev]. rewrite filter_app. reflexivity.
+  - unfold isall at 1 in Hf. cbn [List.find fst] in Hf. rewrite ml_filter_obj.
+    destruct (mkey q) as [|c k] eqn:Ek.
+    + rewrite (ml_filter_gap _ (gapl_opt lay gb)), IH by exact Hf.
+      rewrite rev_app_distr, rev_involutive. cbn [rev]. rewrite !filter_app, filter_gapitems, app_nil_r, <- app_assoc. reflexivity.
+    + destruct (eqs (c :: k) (s "all")); [discriminate|].
+      destruct (mem_s (c :: k) seen).
+      * rewrite (ml_filter_gap _ (gapl_opt lay gb)), IH by exact Hf.
+        rewrite rev_app_distr, rev_involutive, filter_app, filter_gapitems, app_nil_r. reflexivity.
+      * rewrite (ml_filter_gap _ (gapl_opt lay gb)), IH by exact Hf.
+        rewrite rev_app_distr, rev_involutive. cbn [rev]. rewrite !filter_app, filter_gapitems, app_nil_r, <- app_assoc. reflexivity.
+Qed.
+
+Lemma ml_filter_all lay gend : forall more q seen final comments p,
+  List.find isall (ml_pairs lay q more gend) = Some p -> filter is_mq_obj (rev comments) = [] ->
+  filter is_mq_obj (ml_filter (x_ml lay q more gend) seen final comments) = [pobj lay p].
+Proof.
+  induction more as [|[[ga gb] q'] r IH]; intros q seen final comments p Hf Hc; cbn [x_ml ml_pairs fst snd] in *.
+  - unfold isall in Hf. cbn [List.find fst] in Hf. rewrite ml_filter_obj.
+    destruct (mkey q) as [|c k] eqn:Ek; [discriminate|].
+    destruct (eqs (c :: k) (s "all")); [|discriminate]. inversion Hf; subst.
+    cbn [rev]. rewrite filter_app, Hc. reflexivity.
+  - unfold isall at 1 in Hf. cbn [List.find fst] in Hf. rewrite ml_filter_obj.
+    assert (Hc' : filter is_mq_obj (rev (rev (tok_items (gopt lay gb)) ++ comments)) = [])
+      by (rewrite rev_app_distr, rev_involutive, filter_app, Hc, filter_gapitems; reflexivity).
+    destruct (mkey q) as [|c k] eqn:Ek.
+    + rewrite (ml_filter_gap _ (gapl_opt lay gb)). apply IH; assumption.
+    + destruct (eqs (c :: k) (s "all")).
+      * inversion Hf; subst. cbn [rev]. rewrite filter_app, Hc. reflexivity.
+      * destruct (mem_s (c :: k) seen); rewrite (ml_filter_gap _ (gapl_opt lay gb)); apply IH; assumption.
+Qed.
+
+Lemma x_ml_objs lay gend : forall more q, filter is_mq_obj (x_ml lay q more gend) = map (pobj lay) (ml_pairs lay q more gend).
+Proof.
+  induction more as [|[[ga gb] q'] r IH]; intros q; cbn [x_ml ml_pairs map]; [reflexivity|].
+  change (filter is_mq_obj (mq_obj lay q (gopt lay ga) :: tok_items (gopt lay gb) ++ x_ml lay q' r gend))
+    with (mq_obj lay q (gopt lay ga) :: filter is_mq_obj (tok_items (gopt lay gb) ++ x_ml lay q' r gend)).
+  rewrite filter_app, filter_gapitems, IH. reflexivity.
+Qed.
+Lemma pobj_wf lay l : forallb obj_wf (map (pobj lay) l) = true.
+Proof. induction l as [|p l IH]; [reflexivity|]. cbn [map forallb]. rewrite IH. reflexivity. Qed.
+
+Definition mlp lay (ml : mlist) : list (mquery * list tok) :=
+  match ml with [] => [] | (_, _, q) :: more => ml_pairs lay q more [] end.
+
+(* the MediaList constructor on the rendered list: the parse *)
+Theorem media_list_parse lay ml : wf_ml ml ->
+  pparse_env 6 env_real gid_MediaList (r_mlist lay true ml) =
+  Ret (mkRes true (x_mlist lay ml) [] false None SOff false [] stash0).
+Proof.
+  destruct ml as [|[[ga gb] q] more]; [intros []|]. intros Hwf. cbn [wf_ml x_mlist] in *. rewrite r_mlist_toks.
+  pose proof (pparse_total_lemma 5 env_real true opts0 tree_MediaList (ml_toks lay q more []) stash0 (or_introl eq_refl)) as Hne.
+  unfold pparse_env, gid_MediaList. cbn [pparse_sub].
+  change (nth_error env_real 0) with (Some (mkGr (s "MediaList") tree_MediaList opts0 PostML)). cbv iota beta. cbn [g_opts g_tree].
+  unfold pparse in Hne. revert Hne. unfold parse_tree. rewrite tree_MediaList_eq. cbn [init_state enter].
+  fold (subE 5). fold poE. intros Hne.
+  apply runs_fuel; [|exact Hne].
+  exact (ml_runs 3 lay [] (Forall_nil _) more q ml0 [] false false (or_introl eq_refl) Hwf).
+Qed.
+
+(* medialist.py:116-159: wellformed, and the MediaQuery objects that are kept are those of the effective queries *)
+Theorem media_list_spec_items lay ml : wf_ml ml ->
+  exists its, build 6 env_real gid_MediaList (r_mlist lay true ml) = Some (PRet true its []) /\
+              its = ml_filter (x_mlist lay ml) [] [] [] /\
+              filter is_mq_obj its = map (pobj lay) (my_eff (mlp lay ml)).
+Proof.
+  intros Hwf. unfold build. rewrite (media_list_parse lay ml Hwf).
+  change (postof_env env_real gid_MediaList) with (Some PostML). cbv iota beta.
+  destruct ml as [|[[ga gb] q] more]; [destruct Hwf|]. cbn [x_mlist mlp].
+  unfold post. cbn [r_wf r_items andb]. rewrite x_ml_objs, pobj_wf.
+  assert (Hne : negb match map (pobj lay) (ml_pairs lay q more []) with [] => true | _ :: _ => false end = true)
+    by (destruct more as [|[[? ?] ?] ?]; reflexivity).
+  rewrite Hne. cbn [andb]. eexists. split; [reflexivity|]. split; [reflexivity|].
+  unfold my_eff. destruct (List.find isall (ml_pairs lay q more [])) as [p|] eqn:Ef.
+  - apply (ml_filter_all lay [] more q [] [] [] p Ef). reflexivity.
+  - rewrite (ml_filter_noall lay [] more q [] [] [] Ef). reflexivity.
+Qed.
+
+(* ------------------------------------------------------------------ ... and Grammar.media_effective *)
+(* the implementation compares normalize(mediaType) (escapes resolved, lower case), the specification lower(type): they
+   agree on media types without escapes; an empty type name is not a type *)
+Definition type_plain (q : mquery) : Prop := forall t, mq_type q = Some t -> normalize t = lower t /\ lower t <> [].
+
+Lemma mkey_simple q : type_plain q ->
+  match mq_simple q with Some k => mkey q = k /\ k <> [] | None => mkey q = [] end.
+Proof.
+  intros Hp. unfold mq_simple, mkey, simple_type. destruct (mq_type q) as [t|] eqn:Et; [|reflexivity].
+  destruct (Hp t Et) as [H1 H2]. destruct (mq_neg q); [|reflexivity]. destruct (mq_exprs q); [|reflexivity]. now split.
+Qed.
+Lemma isall_is_all q g : type_plain q -> isall (q, g) = is_all q.
+Proof.
+  intros Hp. unfold isall, is_all. cbn [fst]. pose proof (mkey_simple q Hp) as H. destruct (mq_simple q) as [k|].
+  - destruct H as [-> _]. reflexivity.
+  - rewrite H. reflexivity.
+Qed.
+Lemma find_isall l : Forall type_plain (map fst l) ->
+  option_map fst (List.find isall l) = List.find is_all (map fst l).
+Proof.
+  induction l as [|[q g] l IH]; intros H; [reflexivity|]. cbn [map fst] in H. inversion H as [|? ? Hq Hl]; subst.
+  cbn [List.find map fst]. rewrite (isall_is_all q g Hq). destruct (is_all q); [reflexivity|]. apply IH, Hl.
+Qed.
+Lemma mem_s_app x a b : mem_s x (a ++ b) = mem_s x a || mem_s x b.
+Proof. induction a as [|y a IH]; [reflexivity|]. cbn [app mem_s]. rewrite IH, orb_assoc. reflexivity. Qed.
+Lemma ded_dedupe : forall l sa sb, (forall x, mem_s x sa = mem_str x sb) -> Forall type_plain (map fst l) ->
+  map fst (ded sa l) = dedupe sb (map fst l).
+Proof.
+  induction l as [|[q g] l IH]; intros sa sb Hm H; [reflexivity|]. cbn [map fst] in H. inversion H as [|? ? Hq Hl]; subst.
+  cbn [ded map fst dedupe]. pose proof (mkey_simple q Hq) as Hk. destruct (mq_simple q) as [k|].
+  - destruct Hk as [-> Hne]. destruct k as [|c k]; [congruence|]. rewrite Hm. destruct (mem_str (c :: k) sb).
+    + apply IH; assumption.
+    + cbn [map fst]. f_equal. apply IH; [|exact Hl]. intros x. rewrite mem_s_app, Hm. cbn [mem_s mem_str].
+      rewrite orb_false_r. apply orb_comm.
+  - rewrite Hk. cbn [map fst]. f_equal. apply IH; assumption.
+Qed.
+Lemma my_eff_effective l : Forall type_plain (map fst l) -> map fst (my_eff l) = media_effective (map fst l).
+Proof.
+  intros H. unfold my_eff, media_effective. rewrite <- (find_isall l H). destruct (List.find isall l) as [p|]; [reflexivity|].
+  cbn [option_map]. apply ded_dedupe; [reflexivity|exact H].
+Qed.
+Lemma ml_pairs_fst lay gend : forall more q, map fst (ml_pairs lay q more gend) = q :: map snd more.
+Proof. induction more as [|[[ga gb] q'] r IH]; intros q; cbn [ml_pairs map fst snd]; [reflexivity|]. now rewrite IH. Qed.
+
+(* stage 4: the MediaList constructor accepts the rendered list and keeps exactly the effective queries *)
+Theorem media_list_spec lay ml : wf_ml ml -> Forall type_plain (map snd ml) ->
+  exists its ps, build 6 env_real gid_MediaList (r_mlist lay true ml) = Some (PRet true its []) /\
+                 filter is_mq_obj its = map (pobj lay) ps /\ map fst ps = media_effective (map snd ml).
+Proof.
+  intros Hwf Hp. destruct (media_list_spec_items lay ml Hwf) as (its & Hb & _ & Hf).
+  exists its, (my_eff (mlp lay ml)). split; [exact Hb|]. split; [exact Hf|].
+  destruct ml as [|[[ga gb] q] more]; [destruct Hwf|]. cbn [mlp map snd] in *.
+  rewrite my_eff_effective; rewrite ml_pairs_fst; [reflexivity|exact Hp].
+Qed.
+
+Example media_list_spec_ex :
+  let ml := [(0, 0, mkMQ 0 0 0 (Some (s "print")) []); (1, 2, mkMQ 0 0 0 (Some (s "foo")) [(2, 3, 4, mkMExpr 0 (s "color") 1 None 2)]);
+             (3, 4, mkMQ 0 0 0 (Some (s "print")) [])] in
+  wf_ml ml /\ Forall type_plain (map snd ml).
+Proof.
+  split.
+  - repeat split; try reflexivity; try (left; reflexivity); try (right; repeat split; discriminate); repeat constructor;
+      try discriminate.
+  - cbn [map snd]. repeat (apply Forall_cons; [intros t E; inversion E; subst; split; [reflexivity|discriminate]|]).
+    apply Forall_nil.
+Qed.
+
+(* ------------------------------------------------------------------ stage 3 (Dimension values): the top-level statements *)
+Theorem media_query_accepts_v : forall q lay, wf_mqv q ->
+  exists r, pparse 6 env_real true opts0 tree_MediaQuery (r_mquery lay q) stash0 = Ret r /\
+            r_wf r = true /\ r_items r = x_mquery lay q /\ mq_mediatype (r_store r) = simple_type q /\
+            r_rest r = [] /\ saved (r_stash r) = [].
+Proof.
+  intros q lay H. eexists. split; [apply media_query_accepts_items_v; exact H|]. cbn [r_wf r_items r_store r_rest r_stash].
+  repeat split. apply mq_mediatype_sto.
+Qed.
+
+(* `screen and (min-width: 25cm)`: the value is a DimensionValue object *)
+Example media_query_accepts_v_ex :
+  let q := mkMQ 0 0 1 (Some (s "screen")) [(2, 3, 4, mkMExpr 0 (s "min-width") 1 (Some (3, TmDim (mkNum 0 (s "25") None) (s "cm"))) 2)] in
+  wf_mqv q /\
+  exists its, pparse 6 env_real true opts0 tree_MediaQuery (r_mquery [] q) stash0 =
+              Ret (mkRes true its (sto_mquery [] q) false None SOff false [] stash0) /\
+              In (dim_obj "DIMENSION" (s "25cm")) its.
+Proof.
+  intros q. assert (H : wf_mqv q) by (split; [split; [reflexivity|left; reflexivity]|repeat constructor]).
+  split; [exact H|]. eexists. split; [apply (media_query_accepts_items_v 5 [] q H)|]. vm_compute. tauto.
+Qed.
+
+(* ------------------------------------------------------------------ towards stage 5: the list between two gaps, as
+   css/cssmediarule.py hands it to MediaList (GrammarFacts.media_head = greq lay g0 ++ r_mlist lay true media ++ gopt lay g1) *)
+Lemma ml_toks_gend lay gend : forall more q, ml_toks lay q more [] ++ gend = ml_toks lay q more gend.
+Proof.
+  induction more as [|[[ga gb] q'] r IH]; intros q; cbn [ml_toks]; rewrite <- app_assoc; [reflexivity|].
+  f_equal. rewrite <- app_assoc. cbn [app]. rewrite <- app_assoc. now rewrite IH.
+Qed.
+
+Theorem media_list_parse_gaps lay g0 g1 ga gb q more : gapl g0 -> gapl g1 -> wf_ml' q more ->
+  pparse_env 6 env_real gid_MediaList (g0 ++ r_mlist lay true ((ga, gb, q) :: more) ++ g1) =
+  Ret (mkRes true (tok_items g0 ++ x_ml lay q more g1) [] false None SOff false [] stash0).
+Proof.
+  intros Hg0 Hg1 Hwf. rewrite r_mlist_toks, ml_toks_gend.
+  pose proof (pparse_total_lemma 5 env_real true opts0 tree_MediaList (g0 ++ ml_toks lay q more g1) stash0 (or_introl eq_refl)) as Hne.
+  unfold pparse_env, gid_MediaList. cbn [pparse_sub].
+  change (nth_error env_real 0) with (Some (mkGr (s "MediaList") tree_MediaList opts0 PostML)). cbv iota beta. cbn [g_opts g_tree].
+  unfold pparse in Hne. revert Hne. unfold parse_tree. rewrite tree_MediaList_eq. cbn [init_state enter].
+  fold (subE 5). fold poE. intros Hne.
+  apply runs_fuel; [|exact Hne].
+  eapply runs_step; [intros k; apply (run_gap' (subE 5) poE _ Hg0 k ml0 [] [] false false false)|].
+  exact (ml_runs 3 lay g1 Hg1 more q ml0 (tok_items g0) false false (or_introl eq_refl) Hwf).
+Qed.
+
+Theorem media_head_spec lay g0 g1 ml : gapl g0 -> gapl g1 -> wf_ml ml -> Forall type_plain (map snd ml) ->
+  exists its ps, build 6 env_real gid_MediaList (g0 ++ r_mlist lay true ml ++ g1) = Some (PRet true its []) /\
+                 filter is_mq_obj its = map (pobj lay) ps /\ map fst ps = media_effective (map snd ml).
+Proof.
+  intros Hg0 Hg1 Hwf Hp. destruct ml as [|[[ga gb] q] more]; [destruct Hwf|]. cbn [wf_ml] in Hwf.
+  unfold build. rewrite (media_list_parse_gaps lay g0 g1 ga gb q more Hg0 Hg1 Hwf).
+  change (postof_env env_real gid_MediaList) with (Some PostML). cbv iota beta.
+  unfold post. cbn [r_wf r_items andb]. rewrite filter_app, filter_gapitems, x_ml_objs. cbn [app]. rewrite pobj_wf.
+  assert (Hne : negb match map (pobj lay) (ml_pairs lay q more g1) with [] => true | _ :: _ => false end = true)
+    by (destruct more as [|[[? ?] ?] ?]; reflexivity).
+  rewrite Hne. cbn [andb]. eexists _, (my_eff (ml_pairs lay q more g1)). split; [reflexivity|]. split.
+  - rewrite (ml_filter_gap _ Hg0). unfold my_eff.
+    destruct (List.find isall (ml_pairs lay q more g1)) as [p|] eqn:Ef.
+    + apply (ml_filter_all lay g1 more q _ _ _ p Ef). rewrite app_nil_r, rev_involutive. apply filter_gapitems.
+    + rewrite (ml_filter_noall lay g1 more q _ _ _ Ef). rewrite app_nil_r, rev_involutive, filter_gapitems. reflexivity.
+  - cbn [map snd] in *. rewrite my_eff_effective; rewrite ml_pairs_fst; [reflexivity|exact Hp].
+Qed.
+
+(* `(orientation: landscape), print`: an identifier value is a Value object; the list keeps both queries *)
+Example media_list_value_ex :
+  let q1 := mkMQ 0 0 0 None [(0, 0, 0, mkMExpr 0 (s "orientation") 0 (Some (1, TmIdent (s "landscape"))) 0)] in
+  let ml := [(0, 0, q1); (1, 2, mkMQ 0 0 0 (Some (s "print")) [])] in
+  wf_ml ml /\ Forall type_plain (map snd ml).
+Proof.
+  split.
+  - split; [split; [discriminate|repeat constructor]|]. split; [exact I|]. split; [|exact I].
+    split; [split; [reflexivity|left; reflexivity]|constructor].
+  - cbn [map snd]. apply Forall_cons; [intros t E; discriminate|].
+    apply Forall_cons; [intros t E; inversion E; subst; split; [reflexivity|discriminate]|apply Forall_nil].
 Qed.
